@@ -4,21 +4,31 @@ import NaijaVerif.Driver.Util
 
 /-! Line protocol `capture` (C16), see `harness/src/capture.rs`:
 ```
-sc cap=<bytes> poll=<ms> timeout=<ms> out=<c|n|i> err=<c|n|i> reps=<k> hogs=<n> | <child token>...
-      -> allowed <outcome>...     the outcomes `Capture.allowed` admits for this configuration and child;
+sc cap=<bytes> poll=<ms> timeout=<ms> out=<c|n|i> err=<c|n|i> reps=<k> hogs=<n> [stdin=<bytes>] | <child token>...
+      -> allowed <outcome>...     the outcomes `Capture.allowedTimed` admits for this configuration and child;
                                   an outcome followed by `!` has the shape of finding D-16.
-                                  `timeout` is listed only when the child hangs (`h`): non-hanging
-                                  scenarios carry a timeout far above their own duration.
+                                  `timeout` is listed only when the child hangs (`h`) or its sleeps alone
+                                  reach the timeout: other scenarios carry a timeout far above their own
+                                  duration. `ok` is not listed when the child's sleeps exceed the timeout
+                                  by a poll interval (`outliving_child_is_never_ok`). `stdin=<n>`: the run
+                                  gets `n` bytes of stdin text — the answer does not depend on it, nor
+                                  on what the child does with its stdin (tokens `r`, `r<n>`, `c`).
                                   `fixed=<0|1>` selects the modelled `join_capture`; the default is
                                   what the extractor found in /repo (`Gen.Capture.joinAnyFlag`).
+rd cap=<bytes> code=<1|2> flag=<0|1|2> ev=<event>,...
+      -> ok:<len>:<flag> | err:<flag>
+                                  `Capture.readLoop` (the reader loop on a scripted `Read`). Events: `d<n>` / `m<n>` / `x<n>` n bytes of
+                                  ASCII / 3-byte characters / 0xFF (a piece longer than the reader's chunk arrives
+                                  in several reads), `z` a zero-length read, `E:<kind>` a failing read; `-` = none.
 utf8 <hex>  -> valid | invalid    `Capture.validUtf8`
 trace cap=.. chunk=.. pipe=.. out=.. err=.. timeout=.. poll=.. fixed=<0|1> | <child token>... | <label>...
       -> <outcome> | running | disabled@<i>     run the transition system on a label sequence
 ```
 Child tokens: `s<ms>` sleep, `o<n><k>`/`e<n><k>` write n bytes of pattern k (a m g x) to stdout/stderr,
-`p` default SIGPIPE, `x<code>` exit, `k` kill self, `h` hang.
-Labels: `wo<n> we<n> do<n> de<n> po pe end ro re co ce eo ee m t` (child write/drop/sigpipe/end, reader
-read/check/eof, main, tick).
+`p` default SIGPIPE, `x<code>` exit, `k` kill self, `h` hang, `r` read stdin to its end, `r<n>` read n bytes of
+stdin, `c` close stdin.
+Labels: `wo<n> we<n> do<n> de<n> po pe end ro re co ce eo ee fo fe m t` (child write/drop/sigpipe/end, reader
+read/check/eof/fail, main, tick), `ww<n> wend wepipe wfail` (stdin writer), `ri<n> ci` (child reads / closes stdin).
 -/
 namespace NaijaVerif.Driver.CaptureD
 open NaijaVerif NaijaVerif.Capture NaijaVerif.Driver
@@ -37,16 +47,23 @@ structure Script where
   ending : Ending := .code 0
   sigpipeDies : Bool := false
   ok : Bool := true
+  sleeps : Nat := 0        -- milliseconds slept before the ending token
+  ended : Bool := false
 
 def Script.tok (sc : Script) (t : String) : Script :=
   match t.toList with
-  | 's' :: _ => sc
+  | 's' :: rest =>
+      match (String.ofList rest).toNat? with
+      | some ms => if sc.ended then sc else { sc with sleeps := sc.sleeps + ms }
+      | none => { sc with ok := false }
   | ['p'] => { sc with sigpipeDies := true }
-  | ['k'] => { sc with ending := .signal }
-  | ['h'] => { sc with ending := .never }
+  | ['k'] => if sc.ended then sc else { sc with ending := .signal, ended := true }
+  | ['h'] => if sc.ended then sc else { sc with ending := .never, ended := true }
+  | ['c'] => sc
+  | 'r' :: rest => if rest = [] ∨ (String.ofList rest).toNat?.isSome then sc else { sc with ok := false }
   | 'x' :: rest =>
       match (String.ofList rest).toNat? with
-      | some c => { sc with ending := .code (c % 256) }
+      | some c => if sc.ended then sc else { sc with ending := .code (c % 256), ended := true }
       | none => { sc with ok := false }
   | c :: rest =>
       if c = 'o' ∨ c = 'e' then
@@ -82,6 +99,7 @@ def parseCfg (ws : List String) : Option Cfg :=
         | "out" => (parsePol v).map (fun p => { cfg with polOut := p })
         | "err" => (parsePol v).map (fun p => { cfg with polErr := p })
         | "fixed" => v.toNat?.map (fun n => { cfg with fixedJoin := n ≠ 0 })
+        | "stdin" => v.toNat?.map (fun n => { cfg with stdin := some n })
         | "reps" | "hogs" => some cfg
         | _ => none
     | _, _ => none)
@@ -114,9 +132,12 @@ def showOutcome (cfg : Cfg) (plan : Plan) : Outcome → String
   | .error (.ole x) => s!"ole:{strmName x}"
   | .error (.badUtf8 x) => s!"badutf8:{strmName x}"
   | .error .timeout => "timeout"
+  | .error (.readFailed x) => s!"readfail:{strmName x}"
+  | .error .writeFailed => "writefail"
 
 def planOf (sc : Script) : Plan :=
-  { out := sc.out.toList, err := sc.err.toList, ending := sc.ending, sigpipeDies := sc.sigpipeDies }
+  { out := sc.out.toList, err := sc.err.toList, ending := sc.ending, sigpipeDies := sc.sigpipeDies,
+    endAfter := sc.sleeps }
 
 def answerSc (cfgWords childWords : List String) : String :=
   match parseCfg cfgWords with
@@ -126,7 +147,8 @@ def answerSc (cfgWords childWords : List String) : String :=
       if !sc.ok then "bad-op" else
       let plan := planOf sc
       let hangs := plan.ending = .never
-      let outs := (allowedList cfg plan).filter (fun o => o ≠ .error .timeout ∨ hangs)
+      let outs := (allowedList cfg plan).filter
+        (fun o => o ≠ .error .timeout ∨ hangs ∨ cfg.timeout ≤ plan.endAfter)
       let d16 := d16Shape cfg plan
       let strs := outs.map (fun o =>
         let s := showOutcome cfg plan o
@@ -139,9 +161,16 @@ def parseLabel (t : String) : Option Label :=
   | ['m'] => some .main
   | ['t'] => some .tick
   | ['e', 'n', 'd'] => some .childEnd
+  | ['c', 'i'] => some .childCloseIn
   | ['r', c] => (strm c).map .rdRead
   | ['c', c] => (strm c).map .rdCheck
   | ['e', c] => (strm c).map .rdEof
+  | ['f', c] => (strm c).map .rdFail
+  | ['w', 'e', 'n', 'd'] => some .wrEnd
+  | ['w', 'e', 'p', 'i', 'p', 'e'] => some .wrEpipe
+  | ['w', 'f', 'a', 'i', 'l'] => some .wrFail
+  | 'w' :: 'w' :: rest => (String.ofList rest).toNat?.map .wrWrite
+  | 'r' :: 'i' :: rest => (String.ofList rest).toNat?.map .childRead
   | ['p', c] => (strm c).map .childSigpipe
   | 'w' :: c :: rest => do
       let x ← strm c
@@ -173,6 +202,51 @@ def answerTrace (cfgWords childWords labelWords : List String) : String :=
                 | none => s!"disabled@{i}"
       go (init cfg plan) 0 labelWords
 
+/-! ### `rd`: the reader loop on a scripted reader -/
+
+/-- Bytes of a data event of kind `k` starting at offset `off` of the script's data (same table as
+`rd_byte` in the harness). -/
+def rdBytes (k : Char) (off n : Nat) : Bytes :=
+  (List.range n).map (fun i =>
+    match k with
+    | 'd' => 97 + (off + i) % 26
+    | 'm' => [0xE2, 0x82, 0xAC][(off + i) % 3]!
+    | _ => 0xFF)
+
+/-- Parse `d12,E:other,z,…` into events (second component: data bytes so far). -/
+def parseEvents (txt : String) : Option (List RdEv) :=
+  if txt = "-" ∨ txt = "" then some [] else
+  let step (acc : Option (List RdEv × Nat)) (w : String) : Option (List RdEv × Nat) :=
+    match acc with
+    | none => none
+    | some (evs, off) =>
+        match w.toList with
+        | ['z'] => some (evs ++ [.zero], off)
+        | 'E' :: ':' :: _ => some (evs ++ [.fail], off)
+        | k :: rest =>
+            if k = 'd' ∨ k = 'm' ∨ k = 'x' then
+              match (String.ofList rest).toNat? with
+              | some n => some (evs ++ [.data (rdBytes k off n)], off + n)
+              | none => none
+            else none
+        | [] => none
+  ((txt.splitOn ",").foldl step (some ([], 0))).map (·.1)
+
+def answerRd (ws : List String) : String :=
+  let get (key : String) : Option String :=
+    ws.findSome? (fun w => match w.splitOn "=" with
+      | [k, v] => if k = key then some v else none
+      | _ => none)
+  match (get "cap").bind String.toNat?, (get "code").bind String.toNat?, (get "flag").bind String.toNat?,
+        (get "ev").bind parseEvents with
+  | some cap, some my, some flag, some evs =>
+      if (my ≠ 1 ∧ my ≠ 2) ∨ flag > 2 then "bad-op" else
+      let (res, flag') := readLoop cap my flag [] (expandEvents Gen.Capture.chunk evs)
+      match res with
+      | .ok buf => s!"ok:{buf.length}:{flag'}"
+      | .err => s!"err:{flag'}"
+  | _, _, _, _ => "bad-op"
+
 def stepLine (st : Unit) (line : String) : Unit × String :=
   match words line with
   | "sc" :: rest =>
@@ -183,6 +257,7 @@ def stepLine (st : Unit) (line : String) : Unit × String :=
       match unhex h with
       | some b => (st, if validUtf8 b then "valid" else "invalid")
       | none => (st, "bad-op")
+  | "rd" :: rest => (st, answerRd rest)
   | "trace" :: rest =>
       match splitBar rest with
       | [cfgW, childW, labW] => (st, answerTrace cfgW childW labW)
